@@ -5,21 +5,44 @@
 (* their Python references (indexing.calc_drlv2 / refine), in exact        *)
 (* dyadic arithmetic.                                                      *)
 (*                                                                         *)
-(* A case is: UBI = D.M  (M unimodular integer, D = diag of powers of two  *)
-(* <= 8), tolerance tol/64, and a list of peaks drawn from POOL; a peak is *)
-(* <<h, d>> : integer hkl and an offset in 64ths, its g-vector is          *)
-(* g = UB (h + d/64) with UB = M^-1 D^-1, so UBI.g = h + d/64 exactly, in  *)
-(* the model and - every product and sum being a dyadic below 2^53 - in    *)
-(* binary64 too.  All quantities are kept as integers:                     *)
-(*    G512 = 512 g ,  sumsq4096 = |d|^2 = 4096 * drlv2 ,  tol2 = tol^2     *)
+(* A case is: UBI = 2^S.D.M  (M unimodular integer, D = diag of powers of  *)
+(* two <= 8, 2^S = diag(2^s1, 2^s2, 2^s3) a further power-of-two scaling of*)
+(* the cell axes, S in SCALES, any integers), tolerance tol/64, and a list *)
+(* of peaks drawn from POOL; a peak is <<h, d>> : integer hkl and an offset*)
+(* in 64ths, its g-vector is g = UB (h + d/64) with UB = M^-1 D^-1 2^-S,   *)
+(* so UBI.g = h + d/64 exactly, in the model and - every product and sum   *)
+(* being a dyadic below 2^53 - in binary64 too.                            *)
+(* All quantities are kept as integers:                                    *)
+(*    G512 = 512 g  (at S = 0),  sumsq4096 = |d|^2 = 4096 * drlv2 ,        *)
+(*    tol2 = tol^2 ,  x = 64 h + d  (= 64 UBI.g, scale free)               *)
 (* The loop body of the kernels is one action (Iter: test the peak, add    *)
 (* to the normal equations); Solve forms the answer or leaves UBI alone.   *)
+(*                                                                         *)
+(* Scale.  The property quantifies over all UBIs: cells of 1 A and of 1e3 A*)
+(* (|det UB| = 1/volume from 1 down to 1e-9), anisotropic cells, g-vectors *)
+(* in any unit.  Nothing the kernels are asked to compute depends on the   *)
+(* scale: selection, n, sum of squares, H and X = sum x h^T are functions  *)
+(* of (h, d, tol) only, and by linearity R = sum g h^T = UB.X/64, so       *)
+(*    UB_fit = R H^-1 = UB.(X H^-1)/64,  UBI_fit = 64 H X^-1 . UBI         *)
+(* for EVERY UBI = A.M with A diagonal.  TLC checks the linearity law      *)
+(* (Covariant: the R accumulated peak by peak from the g-vectors, as the   *)
+(* code does, equals UB512.X) at the integer scalings D in DS, and the     *)
+(* fixed-point law (FixedPoint: peaks exactly on the lattice give X = 64 H,*)
+(* i.e. UBI_fit = UBI).  S itself never enters TLC's integer arithmetic    *)
+(* (2^S does not fit 32 bits): it is carried through the state and emitted;*)
+(* the harness forms g = M^-1 (2^S D)^-1 x/64 and R = sum g h^T in exact   *)
+(* fractions for the instance's S and re-checks R = UB.X/64 there.         *)
 (*                                                                         *)
 (* checked: H symmetric; Cauchy-Binet  det H = sum over triples of selected*)
 (* peaks of det[ha hb hc]^2  (so "singular" <=> the selected hkl span less *)
 (* than 3 dimensions); n <= number of peaks; the boundary sumsq = tol^2 is *)
-(* NOT selected (strict <).  Emit hands the exact expectations to the      *)
-(* harness.                                                                *)
+(* NOT selected (strict <); Covariant and FixedPoint (above).  Emit hands  *)
+(* the exact expectations to the harness.                                  *)
+(*                                                                         *)
+(* cfgs: _q / _t enumerate every peak list of POOL_std at S = 0;           *)
+(*       _sq / _st enumerate the scale family SCALES_q / SCALES_t (cell    *)
+(*       edges 1 A .. 4096 A, long-axis and plate-like cells, g in units   *)
+(*       2^+-33 and 2^+-100 away) over the shorter pool POOL_s.            *)
 (***************************************************************************)
 EXTENDS ExactLA, Json
 
@@ -28,6 +51,7 @@ CONSTANTS MS,        \* set of unimodular integer matrices M
           TOLS,      \* set of tolerances in 64ths (tol = t/64, 0 < t <= 32)
           POOL,      \* sequence of << <<h,k,l>>, <<d1,d2,d3>> >>
           MAXPK,     \* longest peak list
+          SCALES,    \* set of <<s1,s2,s3>> (integers of either sign): UBI = diag(2^s1,2^s2,2^s3).D.M
           LABS       \* label patterns for refine_assigned: subset of {"all","odd","sel","none"}
 
 \* ---- constant sets used by the .cfg files (cfg syntax has no tuples: `MS <- MS_q`) -----------
@@ -40,28 +64,49 @@ POOL_std == << << <<1,0,0>>, <<0,0,0>> >>,   << <<0,1,0>>, <<1,0,0>> >>,    << <
                << <<1,1,0>>, <<8,8,0>> >>,   << <<2,-1,0>>, <<16,0,0>> >>,  << <<-1,0,2>>, <<0,0,-31>> >>,
                << <<0,3,-3>>, <<32,0,0>> >>, << <<2,2,0>>, <<0,0,0>> >>,    << <<1,2,3>>, <<-1,1,-1>> >>,
                << <<100,-57,33>>, <<1,0,0>> >> >>
+\* the shorter pool of the scale runs: on-lattice, 1/64 off, 1/8 off, two axes 1/8 off, exactly on the tolerance
+\* boundary (16/64), generic, |h| ~ 100
+POOL_s == << << <<1,0,0>>, <<0,0,0>> >>,   << <<0,1,0>>, <<1,0,0>> >>,    << <<0,0,1>>, <<0,-8,0>> >>,
+             << <<1,1,0>>, <<8,8,0>> >>,   << <<2,-1,0>>, <<16,0,0>> >>,  << <<1,2,3>>, <<-1,1,-1>> >>,
+             << <<100,-57,33>>, <<1,0,0>> >> >>
+\* scale families (exponents of two; the cell edges are 2^s x D, D in 2..8, i.e. a "2 A" base cell):
+SCALES_unit == { <<0,0,0>> }
+SCALES_q == { <<-1,-1,-1>>, <<2,2,2>>, <<5,5,5>>, <<7,7,7>>, <<9,9,9>>,        \* 1 A ... 1024 A (x D)
+              <<0,0,8>>, <<9,0,0>>, <<0,6,10>>, <<8,8,-1>>,                     \* long axis, plate
+              <<-33,-33,-33>>, <<33,33,33>>, <<-100,-100,-100>>, <<100,100,100>> }   \* huge / tiny |g|
+SCALES_t == SCALES_q \cup { <<0,0,0>>, <<1,1,1>>, <<3,3,3>>, <<4,4,4>>, <<6,6,6>>, <<8,8,8>>, <<11,11,11>>,
+                            <<-4,-4,-4>>, <<7,0,7>>, <<-1,9,4>>, <<10,5,0>>, <<3,12,3>>,
+                            <<-33,-33,-25>>, <<33,40,33>>, <<-300,-300,-300>>, <<300,300,300>> }
 LABS_q == {"all", "odd"}
+LABS_s == {"all"}
+LABS_st == {"all", "sel"}
+TOLS_s == { 16, 32 }
+DS_s == { <<2,4,8>> }
 LABS_t == {"all", "odd", "sel", "none"}
 ASSUME \A m \in MS_t : Det(m) \in {1, -1}
 
-VARIABLES M, D, tol, lab, pk, k, n, ss, R, H, nl, ssl, Rl, Hl, pc
-vars == <<M, D, tol, lab, pk, k, n, ss, R, H, nl, ssl, Rl, Hl, pc>>
+VARIABLES M, D, S, tol, lab, pk, k, n, ss, R, H, X, nl, ssl, Rl, Hl, Xl, pc
+vars == <<M, D, S, tol, lab, pk, k, n, ss, R, H, X, nl, ssl, Rl, Hl, Xl, pc>>
 
 Lists == UNION {[1..m -> 1..Len(POOL)] : m \in 0..MAXPK}
 
-Init == /\ M \in MS /\ D \in DS /\ tol \in TOLS /\ lab \in LABS
+Init == /\ M \in MS /\ D \in DS /\ S \in SCALES /\ tol \in TOLS /\ lab \in LABS
         /\ pk \in Lists
-        /\ k = 1 /\ n = 0 /\ ss = 0 /\ R = Z3 /\ H = Z3
-        /\ nl = 0 /\ ssl = 0 /\ Rl = Z3 /\ Hl = Z3 /\ pc = "loop"
+        /\ k = 1 /\ n = 0 /\ ss = 0 /\ R = Z3 /\ H = Z3 /\ X = Z3
+        /\ nl = 0 /\ ssl = 0 /\ Rl = Z3 /\ Hl = Z3 /\ Xl = Z3 /\ pc = "loop"
 
 Hk(i) == POOL[pk[i]][1]
 Dk(i) == POOL[pk[i]][2]
 SumSq(i) == Norm2(Dk(i))                         \* 4096 * drlv2
 Selected(i) == SumSq(i) < tol * tol              \* strict, as `sumsq < tolsq`
-\* 512 * g = M^-1 . diag(8/D) . (64 h + d)     (M^-1 = Adj(M)/Det(M), Det(M) = +-1)
-G512(i) == LET x == VAdd(VScale(64, Hk(i)), Dk(i))
+\* x = 64 UBI.g = 64 h + d : the same at every scale
+Xk(i) == VAdd(VScale(64, Hk(i)), Dk(i))
+\* 512 * g = M^-1 . diag(8/D) . (64 h + d)     (M^-1 = Adj(M)/Det(M), Det(M) = +-1)     [at S = 0]
+G512(i) == LET x == Xk(i)
                y == << (8 \div D[1]) * x[1], (8 \div D[2]) * x[2], (8 \div D[3]) * x[3] >>
            IN VScale(Det(M), MV(Adj(M), y))
+\* 512/64 * UB = M^-1 . diag(8/D)  as an integer matrix: G512(i) = UB512 . Xk(i)
+UB512 == M2T(MScale(Det(M), MM(Adj(M), Diag(8 \div D[1], 8 \div D[2], 8 \div D[3]))))
 Labelled(i) == CASE lab = "all" -> TRUE [] lab = "odd" -> i % 2 = 1
                  [] lab = "sel" -> Selected(i) [] lab = "none" -> FALSE
 
@@ -71,22 +116,24 @@ Iter == /\ pc = "loop" /\ k <= Len(pk)
            THEN /\ n' = n + 1 /\ ss' = ss + SumSq(k)
                 /\ R' = M2T(MAdd(R, Outer(G512(k), Hk(k))))
                 /\ H' = M2T(MAdd(H, Outer(Hk(k), Hk(k))))
-           ELSE UNCHANGED <<n, ss, R, H>>
+                /\ X' = M2T(MAdd(X, Outer(Xk(k), Hk(k))))
+           ELSE UNCHANGED <<n, ss, R, H, X>>
         /\ IF Labelled(k)
            THEN /\ nl' = nl + 1 /\ ssl' = ssl + SumSq(k)
                 /\ Rl' = M2T(MAdd(Rl, Outer(G512(k), Hk(k))))
                 /\ Hl' = M2T(MAdd(Hl, Outer(Hk(k), Hk(k))))
-           ELSE UNCHANGED <<nl, ssl, Rl, Hl>>
-        /\ k' = k + 1 /\ UNCHANGED <<M, D, tol, lab, pk, pc>>
+                /\ Xl' = M2T(MAdd(Xl, Outer(Xk(k), Hk(k))))
+           ELSE UNCHANGED <<nl, ssl, Rl, Hl, Xl>>
+        /\ k' = k + 1 /\ UNCHANGED <<M, D, S, tol, lab, pk, pc>>
 
 \* k = inverse3x3(H): singular -> ubi unchanged, else UB = R H^-1 (the harness finishes the division)
 \* 32-bit guard: with |hkl| ~ 100 the determinant does not fit TLC's integers; then the harness forms it
-Big(X) == \E i, j \in Idx : Abs(X[i][j]) > 1200
+Big(Q) == \E i, j \in Idx : Abs(Q[i][j]) > 1200
 BIG == 2147483647
-DetOrBig(X) == IF Big(X) THEN BIG ELSE Det(X)
+DetOrBig(Q) == IF Big(Q) THEN BIG ELSE Det(Q)
 Solve == /\ pc = "loop" /\ k = Len(pk) + 1
          /\ pc' = IF Big(H) THEN "big" ELSE IF Det(H) = 0 THEN "unchanged" ELSE "refined"
-         /\ UNCHANGED <<M, D, tol, lab, pk, k, n, ss, R, H, nl, ssl, Rl, Hl>>
+         /\ UNCHANGED <<M, D, S, tol, lab, pk, k, n, ss, R, H, X, nl, ssl, Rl, Hl, Xl>>
 
 Next == Iter \/ Solve
 Spec == Init /\ [][Next]_vars
@@ -98,19 +145,25 @@ HSym == IsSym(H) /\ IsSym(Hl)
 CountOK == n <= k - 1 /\ nl <= k - 1
 CauchyBinet == (Done /\ ~Big(H)) =>
    Det(H) = LET T == {t \in SelSet \X SelSet \X SelSet : t[1] < t[2] /\ t[2] < t[3]}
-                F[S \in SUBSET T] == IF S = {} THEN 0
-                                     ELSE LET t == CHOOSE x \in S : TRUE
+                F[Z \in SUBSET T] == IF Z = {} THEN 0
+                                     ELSE LET t == CHOOSE x \in Z : TRUE
                                               d == Det(<<Hk(t[1]), Hk(t[2]), Hk(t[3])>>)
-                                          IN d * d + F[S \ {t}]
+                                          IN d * d + F[Z \ {t}]
             IN F[T]
 StrictBoundary == \A i \in 1..Len(pk) : SumSq(i) = tol * tol => ~Selected(i)
 ScoreDef == Done => n = Cardinality(SelSet)
+\* scale covariance (linearity): the R summed from the g-vectors is the image under UB of the scale-free X, at every
+\* step of the loop and for both kernels; hence R H^-1 = UB.(X H^-1) and UBI_fit = (X H^-1)^-1 . UBI
+Covariant == R = M2T(MM(UB512, X)) /\ Rl = M2T(MM(UB512, Xl))
+\* peaks exactly on the lattice of UBI leave UBI where it is (X = 64 H, so X H^-1 = 64 I)
+FixedPoint == /\ (\A i \in 1..(k-1) : Selected(i) => Dk(i) = <<0,0,0>>) => X = M2T(MScale(64, H))
+              /\ (\A i \in 1..(k-1) : Labelled(i) => Dk(i) = <<0,0,0>>) => Xl = M2T(MScale(64, Hl))
 
 Emit == Done =>
-   PrintT("@@" \o ToJson([M |-> M, D |-> D, tol |-> tol, lab |-> lab,
+   PrintT("@@" \o ToJson([M |-> M, D |-> D, S |-> S, tol |-> tol, lab |-> lab,
           peaks |-> [i \in 1..Len(pk) |-> [h |-> Hk(i), d |-> Dk(i), g512 |-> G512(i),
                                           sel |-> IF Selected(i) THEN 1 ELSE 0,
                                           lab |-> IF Labelled(i) THEN 1 ELSE 0]],
-          n |-> n, ss |-> ss, R |-> R, H |-> H, detH |-> DetOrBig(H),
-          nl |-> nl, ssl |-> ssl, Rl |-> Rl, Hl |-> Hl, detHl |-> DetOrBig(Hl)]))
+          n |-> n, ss |-> ss, R |-> R, H |-> H, X |-> X, detH |-> DetOrBig(H),
+          nl |-> nl, ssl |-> ssl, Rl |-> Rl, Hl |-> Hl, Xl |-> Xl, detHl |-> DetOrBig(Hl)]))
 =============================================================================
